@@ -304,7 +304,17 @@ ListPrograms ==
          {"list-variables", "through-client-field"}),
     Prog(<< Component("Query", "Home", <<VarDef("a", tIds)>>,
                       << LinkedA("byIds", "", A1("ids", Var("a")), <<Scalar("nickname"), Scalar("__refetch")>>) >>), EP >>,
-         {"list-variables", "refetch"}) }
+         {"list-variables", "refetch"}),
+    \* near misses: item / list nullability of the variable weaker than the argument's (the compiler must reject them; if it
+    \* accepts one, the operation it prints violates IsVariableUsageAllowed) -- seeded/C09b-list-item-nullability-not-compared
+    Prog(<< Component("Query", "Home", <<VarDef("b", ListOf(tStr))>>, << LinkedA("byTags", "", A1("tags", Var("b")), <<Scalar("kind")>>) >>), EP >>,
+         {"list-variables", "weaker-item"}),
+    Prog(<< Component("Query", "Home", <<VarDef("a", NonNull(ListOf(tID)))>>, << LinkedA("byIds", "", A1("ids", Var("a")), <<Scalar("kind")>>) >>), EP >>,
+         {"list-variables", "weaker-item-nonnull-list"}),
+    Prog(<< Component("Query", "Home", <<VarDef("a", ListOf(NonNull(tID)))>>, << LinkedA("byIds", "", A1("ids", Var("a")), <<Scalar("kind")>>) >>), EP >>,
+         {"list-variables", "weaker-list"}),
+    Prog(<< Component("Query", "Home", <<VarDef("c", ListOf(NonNull(ListOf(tInt))))>>, << LinkedA("byTags", "", A1("grid", Var("c")), <<Scalar("kind")>>) >>), EP >>,
+         {"list-variables", "weaker-inner-item"}) }
 
 Programs == CASE Family = "value"  -> ValueProgramsF
               [] Family = "pair"   -> PairPrograms
